@@ -244,6 +244,15 @@ impl Tape {
     pub fn remaining(&self) -> u64 {
         self.remaining
     }
+
+    /// Advance the cursor by `n` bytes without recording a call (used to start a fresh tape at the
+    /// position another one had reached).
+    pub fn skip(&mut self, n: u64) {
+        let n = n.min(self.remaining);
+        for _ in 0..n {
+            let _ = self.next_byte();
+        }
+    }
 }
 
 /// Fallible front-end.
